@@ -26,6 +26,7 @@ type Spec struct {
 }
 
 type Req struct {
+	Host       string            `json:"host,omitempty"` // Host header ("" = sim.test)
 	Method     string            `json:"method"`
 	Path       string            `json:"path"`
 	Query      string            `json:"query,omitempty"`
@@ -302,6 +303,12 @@ func (s *Spec) request(r *simfw.RNG, i int, faultOK bool) Req {
 		if d.ReqHeader {
 			q.Headers = append(q.Headers, [2]string{"X-Req", simfw.Pick(r, []string{"a", "b"})})
 		}
+		if d.ObjParam && r.Bool() {
+			if q.Query != "" {
+				q.Query += "&"
+			}
+			q.Query += "color=R,100,G,20"
+		}
 		if d.Secured {
 			q.Headers = append(q.Headers, key)
 		}
@@ -344,6 +351,12 @@ func (s *Spec) request(r *simfw.RNG, i int, faultOK bool) Req {
 			q.Path = "/items/3" // declared path outside the declared server base
 			q.Method = "GET"
 		}
+		if d.ServerHost && r.Chance(2, 3) {
+			// a declared method and path, asked of a host the document does not declare
+			q.Method = "GET"
+			q.Path = base + simfw.Pick(r, []string{"/ping", "/items/7"})
+			q.Host = "evil.test"
+		}
 		q.Intent = "noroute"
 		if r.Bool() {
 			q.HasBody = true
@@ -352,7 +365,7 @@ func (s *Spec) request(r *simfw.RNG, i int, faultOK bool) Req {
 		}
 	default:
 		goodPost()
-		why := simfw.Pick(r, []string{"path", "path_min", "query", "header_missing", "header_enum", "json", "schema", "nobody", "ct", "auth", "extra"})
+		why := simfw.Pick(r, []string{"path", "path_min", "query", "header_missing", "header_enum", "json", "schema", "nobody", "ct", "auth", "extra", "query_obj"})
 		switch why {
 		case "path":
 			q.Path = base + "/items/abc"
@@ -360,6 +373,13 @@ func (s *Spec) request(r *simfw.RNG, i int, faultOK bool) Req {
 			q.Path = base + "/items/0"
 		case "query":
 			q.Query = "q=a"
+		case "query_obj":
+			if !d.ObjParam {
+				q.Query = "q=a"
+				why = "query"
+			} else {
+				q.Query = "color=R,100,G" // an odd number of items cannot be an object
+			}
 		case "header_missing":
 			if !d.ReqHeader {
 				q.Path = base + "/items/abc"
@@ -446,7 +466,7 @@ func Gen(seed uint64, tier string) *Spec {
 	s := &Spec{Marker: fmt.Sprintf("MK%012x", seed&0xffffffffffff)}
 	s.Doc = DocParams{
 		Secured: r.Bool(), ReqHeader: r.Bool(), RespHeader: r.Bool(), Class4xx: r.Bool(),
-		Default: r.Chance(1, 3), ServerBase: r.Chance(1, 3), BodyDefault: r.Chance(1, 4),
+		Default: r.Chance(1, 3), ServerBase: r.Chance(1, 3), BodyDefault: r.Chance(1, 4), ObjParam: r.Chance(1, 3),
 	}
 	s.Router = simfw.Pick(r, []string{"gorilla", "legacy"})
 	switch r.Intn(10) {
@@ -456,6 +476,9 @@ func Gen(seed uint64, tier string) *Spec {
 		s.Kind = "vh_mw"
 	default:
 		s.Kind = "validator"
+	}
+	if s.Kind == "validator" && s.Router == "gorilla" && !s.Doc.ServerBase && r.Chance(1, 3) {
+		s.Doc.ServerHost = true
 	}
 	if s.Kind == "validator" {
 		s.Strict = r.Bool()
